@@ -312,6 +312,13 @@ def faults_case(case, counters, viol, nontrivial):
                 mine = [d for d in DUMPS[n_before:] if d[0] == os.path.realpath(path)]  # payloads of the interrupted run
                 earlier = [d for d in DUMPS[:n_before] if d[0] == os.path.realpath(path)]  # left by the earlier, bigger run
                 latest = mine[-1][2] if mine else None
+                # the cadence also binds a run that ends in an interruption: what it wrote must be what the uninterrupted run
+                # had written by then (a prefix of the grid) - an extra write "to save progress" on the way out is off the grid
+                its_f = [d[1] for d in mine]
+                if cfg["sampler"] != "emcee_smc" and not same_ctx:
+                    counters["interrupted_runs_judged_against_the_cadence"] += 1
+                    if its_f != its[: len(its_f)]:
+                        viol.append({"mech": "C12/checkpoint-iterations-differ-from-cadence/interrupted-run", "detail": f"{where} [fault at {kind} call {idx}/{total}, {res.exc.__class__.__name__}]: payload iterations {its_f}; the uninterrupted run wrote {its}"})
                 st = read_file(path)
                 if latest is None and earlier and st["state"] is not None:
                     # the interrupted run wrote nothing yet: a checkpoint that is still there must be the earlier run's last one, intact
